@@ -15,9 +15,13 @@ proof        : coq/prop/P_C30.v over model/M_ExtStore.v -- for ALL batches, cycl
                  inline wire -- for unary results / headers (single batch), client-uploaded requests and collector
                  cycles in which no EXCEPTION-level log follows the data batch (the excluded class is refuted).
 regenerated  : metadata key constants, Level values, the retry cap, the retryable exception tuple, the order of the
-               checks in _fetch_and_resolve, the guard order of maybe_externalize_batch / _collector, what the
-               collector serialises, that the request pointer carries no digest -> gen/G_ExtStore.v;
-               tie/T_ExtStore.v proves them equal to the modelled terms.
+               checks in _fetch_and_resolve, the guard order of maybe_externalize_batch / _collector, that the request
+               pointer carries no digest, and the SHAPE of maybe_externalize_collector (gen_collector_serializes_all:
+               whole cycle in the external object, as found / only up to the data batch with the rest inline behind
+               the pointer, fixes/C30-collector-tail-inline.diff) -> gen/G_ExtStore.v; tie/T_ExtStore.v proves the
+               constants equal to the modelled terms and restates cycle transparency over the regenerated shape flag
+               (the EXCEPTION-after-data side condition is only needed while the flag is true); the correspondence
+               runs the model with the same flag.
 correspondence: the real maybe_externalize_collector / maybe_externalize_batch / _build_pointer_request_body /
                resolve_external_location against the repo's fake object store served over loopback HTTP (real
                FakeStorageBackend.upload, real fetch_url with content decoding) with a storage-side corruption
